@@ -8,8 +8,8 @@ PID = "C07"
 MODULE, PKG, BIN = "core", "./verifh/c07", "c07"
 COQ_IMPORTS = "From Synnax Require Import Common.Base Generated.Consts_C15 Core.Channel Core.Dist Monitors.Mon_C07."
 CASE_TYPE = "case_t"
-COUNTS = {"quick": 150, "thorough": 5000}
-SHARD = 12
+COUNTS = {"quick": 480, "thorough": 8000}
+SHARD = 40
 PROCS = 8
 HARNESS_TIMEOUT = 900
 RULE = ("cluster cases: 1-3 node in-memory clusters, 2-3 index groups (index + 1-2 data channels) with every placement "
@@ -334,8 +334,34 @@ def model_dump(case, r):
     return coq_print(PID, COQ_IMPORTS, "Eval vm_compute in model_dump (%s)." % t)[-8000:]
 
 
-READY = False
-TECHNIQUE = "Coq proof (refinement of the single store by the routed cluster, induction over scripts) + model/impl correspondence"
+READY = True
+TECHNIQUE = ("Coq proof (refinement of a single store by the routed cluster, induction over scripts; permutation / "
+             "disjunction argument for the iterator; cycle lemmas for the synchronizers) + model/impl correspondence + "
+             "differential monitor against one stand-alone cesium store")
 DESIGN_REF = "DESIGN.md §8 C07, §9 F15"
-LEVEL_TEXT = ""
-LEVEL_NOTE = ""
+LEVEL_TEXT = ("Machine-checked Coq theorems over an executable Gallina copy of the framer's routing (SplitByHost, "
+              "SplitByLeaseholder, peer/gateway/free switch, validator, both response synchronizers, iterator open "
+              "validation and acknowledgement combination): the splitters partition every frame (order kept); for ALL "
+              "placements (the leaseholder is part of the key), ALL gateways and ALL scripts each leaseholder ends up "
+              "with exactly the samples a single store holds for its channels, no other node holds any, and every "
+              "request gets the single store's result (C07_location_transparent, by a refinement relation inductive "
+              "over opens/writes/commits/closes incl. auto-commit and rejected frames); unknown or free keys do not "
+              "open; the commit acknowledgement is forwarded exactly once and only after all |leaseholders| responses "
+              "(C07_commit_ack_after_all); for every answer the channels' storage iterators may give, the cluster "
+              "iterator returns the same entries (permutation) and the same acknowledgement as one storage iterator "
+              "over all channels (C07_iterator_location_transparent). Tied to /repo by driving the real writer/iterator "
+              "services of every node of a 1-3 node in-memory cluster with enumerated placements and gateways; the "
+              "monitor compares every node's engine and every gateway's traversal, command by command, with ONE real "
+              "stand-alone cesium store given the same writes (differential), and each acknowledged commit with what "
+              "the leaseholders' engines hold at that moment.")
+LEVEL_NOTE = ("Trusted: Coq kernel/vm_compute; hand-written model tied by correspondence; harness, two tiny add-only hook "
+              "files, generator; the reference store is the real cesium, so 'what a single-node store would return' is "
+              "not modelled but executed. What a channel's storage iterator answers is a parameter of the iterator "
+              "theorem (nothing depends on a cesium read model). Not modelled: transport failures / peer death, control "
+              "authority conflicts between concurrent writers, Sync=true per-write acknowledgements, relay streaming of "
+              "free/virtual channels, the End value cesium reports. Observation outside the statement, left unchanged: "
+              "the WRITER synchronizer forwards the last response instead of the accumulated one, so Commit() returns "
+              "the End/Authorized of whichever leaseholder answered last (C07_commit_ack_end_refuted; reproduced on the "
+              "implementation by the component cases). Opening a cluster iterator on an existing VIRTUAL channel hangs "
+              "instead of failing (seen once, generator now avoids it; outside the statement). All theorems closed under "
+              "the global context.")
